@@ -61,4 +61,24 @@ def POut.show : POut → String
   | .none => "none" | .msg m => "msg " ++ m.show | .count n => s!"count {n}" | .stop => "stop"
   | .iterId i => s!"iter {i}" | .msgs ms => "msgs " ++ showMsgs ms | .raised e => "err " ++ e.name
 
+/-- run-length compression `x*n` of equal neighbours, joined by `;` -/
+def rle (xs : List String) : String :=
+  let rec go : List String → Option (String × Nat) → List String → List String
+    | [], none, acc => acc.reverse
+    | [], some (p, n), acc => ((if n == 1 then p else s!"{p}*{n}") :: acc).reverse
+    | x :: rest, none, acc => go rest (some (x, 1)) acc
+    | x :: rest, some (p, n), acc =>
+      if x == p then go rest (some (p, n + 1)) acc
+      else go rest (some (x, 1)) ((if n == 1 then p else s!"{p}*{n}") :: acc)
+  ";".intercalate (go xs none [])
+
+/-- answers for `[a, b, c]`, c = 0..255 -/
+def decBlock (a b : Nat) : String :=
+  rle ((List.range 256).map fun c =>
+    match decodeNats [a, b, c] with
+    | .ok m => "M" ++ m.show
+    | .error .ValueError => "V"
+    | .error .TypeError => "T"
+    | .error e => "?" ++ e.name)
+
 end Mido
